@@ -25,6 +25,29 @@ PROPS = {
                    "held means no disagreement on the cases run (10^5-10^7), with hook counters proving the fast path, all path builders and the SIMD scanners were reached.",
         level_note="trusted: ref_url.h (gated on 921 WPT vectors per run), ICU 15 UTS46 for non-ASCII hosts, generators; says nothing about inputs not generated",
     ),
+    "C02": dict(
+        legs=[dict(monitor="c02", config="asan", name="c02:surface/asan", cases=K(200000, 20000000)),
+              dict(monitor="c02", config="asan-dev", name="c02:surface/asan-dev", cases=K(20000, 2000000)),
+              dict(monitor="c02", config="plain", name="c02:surface/valgrind", cases=K(3200, 320000), env={"VERIF_LOG_EACH_CASE": "1"},
+                   wrap=["valgrind", "-q", "--error-exitcode=99", "--exit-on-first-error=yes", "--leak-check=full", "--errors-for-leak-kinds=definite", "--track-origins=no", "--max-stackframe=8388608"],
+                   args=["--alarm", "1200"])],
+        rule="six arbitrary byte strings per case (random bytes, embedded NULs, stray/truncated UTF-8, corrupted corpus URLs, xn-- labels, pattern syntax, sizes 0..64 KiB incl. "
+             "the 16384+-1 IDNA boundary; every single byte value and the empty string) drive seven entry-point families from one driver: parse with/without base + random "
+             "setter/clear/copy/move histories for both URL types, can_parse/href_from_file/percent-encode helpers, IDNA (to_ascii, to_unicode, map, normalize, punycode, label "
+             "validity, transcoding), url_search_params (all operations and iterators), url_pattern construction (string, string+base, init dictionary, ignoreCase) followed by "
+             "test/exec/match, and the whole C API; each argument lives in an exactly-sized heap block. Oracles: ASan+UBSan+LSan (also with ADA_DEVELOPMENT_CHECKS=1), valgrind "
+             "memcheck on the plain build (uninitialised reads), catch(...) around every family, alarm() watchdog per case. Non-trivial: case reaching >= 3 families. "
+             "Distinct: (family bitmask, size class).",
+        floors=dict(any={"parsed_ok": 1000, "setter_calls": 100000, "patterns_constructed": 1000, "pattern_match_calls": 5000, "idna_rounds": 10000, "search_params_ops": 10000, "c_api_rounds": 10000, "cases_over_8KiB": 100}),
+        assumptions=["sanitizers only see executed paths; red-zone tools miss intra-object and far overflows",
+                     "url_pattern matching goes through libstdc++'s std::regex (the in-tree 'unsafe' provider): pattern text is capped at 96 bytes and matched inputs at 160 bytes so that "
+                     "libstdc++ backtracking/stack depth is not attributed to ada",
+                     "termination = every case finished within a 60 s alarm (1200 s under valgrind) that is 3 orders of magnitude above the normal case time; a firing alarm is re-run in isolation before it counts",
+                     "ada_strings_get is called with in-range indices only"],
+        technique="sanitizer-instrumented API-surface stress (ASan+UBSan+LSan, development assertions armed, valgrind memcheck) with exception and watchdog monitors",
+        level_text="No expected values: the sanitizers, memcheck, the exception net and the watchdog are the oracles over 10^5-10^7 hostile byte-string cases that reach every public entry-point family.",
+        level_note="held = no report on the executions driven; not a proof of memory safety",
+    ),
     "C03": dict(
         legs=[dict(monitor="hist", config="asan", name="hist:c03/asan", args=["--mode", "c03"], cases=K(100000, 10000000))],
         rule="setter histories (1-12 ops, thorough 1-40) on start URLs from WPT, grammar and mutation, plus every WPT setters_tests vector; "
